@@ -182,6 +182,18 @@ class Monitor:
                         r.violation(f'C03/copy/mutation-leaks/{cls}.{prop}', f'setting {prop} on the {direction} changed the other',
                                     dict(case, path=list(path), prop=prop, direction=direction))
                         return
+                if cls == 'StructOf' and isinstance(node.optional, list):
+                    # the list of optional members is changed in place (it is a plain, public list)
+                    before = self.snapshot(a)
+                    if node.optional:
+                        del node.optional[0]
+                    else:
+                        node.optional.append(sorted(node.members)[0])
+                    r.count('copy_mutations')
+                    if self.snapshot(a) != before:
+                        r.violation('C03/copy/mutation-leaks/StructOf.optional', f'changing the optional list of the {direction} in place changed the other',
+                                    dict(case, path=list(path), direction=direction))
+                        return
                 if cls == 'EnumType':
                     before = self.snapshot(a)
                     node.set_name('renamed')
